@@ -183,7 +183,9 @@ CHECKS = {
             "conditionals (with preconditioner scalings), the covariance of the observed Taylor coefficient plus per-time / "
             "per-dimension noise, its determinant and the Mahalanobis form as exact rationals. loss_lml_timeseries (sum and "
             "time-average) and loss_lml_terminal_values are evaluated on MarkovSequences built from the same integer pieces for the "
-            "dense, isotropic and block-diagonal models (noise-free initial states included) and compared with the exact log-density."
+            "dense, isotropic and block-diagonal models (noise-free initial states included) and compared with the exact log-density. "
+            "Wiring: the posterior returned by the real solvers on the tracing SSM is fed to the real evaluate_lml; TLC accepts the "
+            "log only if every datum is scored exactly once under the marginal at its own time given all later data, and exports the loss value."
         ),
         design_ref="DESIGN.md 3.3, 4 (C12)",
         note="Trusted: TLC arithmetic; harness embedding of structured pieces (law checked under C08); observed joint <= 4 x 4; 2-3 output times. The wiring of the posterior that the solvers hand to the loss is decided under C03.",
@@ -196,7 +198,8 @@ CHECKS = {
             "MarkovSequence.sample is run with probdiffeq.backend.random.normal replaced by a table lookup keyed by the PRNG key "
             "(the key tree is recomputed with random.split; every draw must use a distinct leaf): zero draws must give the "
             "smoothing means, unit draws give the columns W of the affine map and W W^T must equal the joint covariance; shapes "
-            "are prepended and batch members distinct; prior samples via from_grid are held to the exact IWP joint law."
+            "are prepended and batch members distinct; prior samples via from_grid are held to the exact IWP joint law. Wiring: "
+            "samples of the solvers' posterior (tracing SSM) must follow the stored backward chain from the terminal marginal, every draw with its own key (TLC)."
         ),
         design_ref="DESIGN.md 3.3, 4 (C13)",
         note="Trusted as C12 plus the replacement of the normal generator in the harness process.",
